@@ -33,7 +33,13 @@ use std::time::Duration;
 
 thread_local! {
     static TASK: Cell<Option<usize>> = Cell::new(None);
+    // tasks that run a step of the replication loop / supervisor with lock yields on park before every
+    // acquisition of the cluster-state lock
+    static LOCK_PARK: Cell<bool> = Cell::new(false);
 }
+
+struct SendPtr(*mut Pin<Box<dyn Future<Output = ()>>>);
+unsafe impl Send for SendPtr {}
 
 struct TaskSt {
     current: Option<usize>,
@@ -58,7 +64,11 @@ lazy_static::lazy_static! {
 }
 
 fn on_yield(site: &str) {
-    if !site.starts_with("election.") {
+    if site.starts_with("cluster_state.") {
+        if !LOCK_PARK.with(|c| c.get()) {
+            return;
+        }
+    } else if !site.starts_with("election.") {
         return;
     }
     let tid = match TASK.with(|t| t.get()) {
@@ -144,6 +154,9 @@ struct SimNode {
     sup_tx: Sender<String>,
     repl_fut: Pin<Box<dyn Future<Output = ()>>>,
     sup_fut: Pin<Box<dyn Future<Output = ()>>>,
+    // lock yields: the task that is in the middle of a step of this node's loop / supervisor
+    repl_busy: Option<usize>,
+    sup_busy: Option<usize>,
 }
 
 struct Link {
@@ -170,6 +183,16 @@ enum TaskKind {
     Reply(usize),
     ClientCmd(usize),
     Disconnect(String, String),
+    Sup(String),
+    Repl(String),
+}
+
+/// What is recorded around a step of the supervisor: the command, and for the catch-up builder its inputs
+/// (taken when the step last got the processor: with lock yields on, at its last resume) and the number of
+/// lines that were on the connection then.
+struct SupCtx {
+    msg: String,
+    catchup: Option<(String, u64, J, usize, Option<bool>)>,
 }
 
 struct Sim {
@@ -188,6 +211,10 @@ struct Sim {
     trace_state: bool,
     trace_data: bool,
     sup_dead: BTreeMap<String, bool>,
+    lock_yields: bool,
+    disruptive: std::collections::BTreeSet<usize>,
+    sup_ctx: BTreeMap<usize, SupCtx>,
+    repl_ctx: BTreeMap<usize, String>,
 }
 
 fn strip_id(line: &str) -> String {
@@ -260,6 +287,8 @@ impl Sim {
             sup_tx,
             repl_fut,
             sup_fut,
+            repl_busy: None,
+            sup_busy: None,
         });
         Ok(())
     }
@@ -373,12 +402,17 @@ impl Sim {
         self.collect();
         let mut v = vec![];
         for n in self.nodes.iter().filter(|n| n.alive) {
-            if !n.repl_q.is_empty() {
+            if !n.repl_q.is_empty() && n.repl_busy.is_none() {
                 v.push(format!("repl:{}", n.name));
             }
-            if !n.sup_q.is_empty() {
+            if !n.sup_q.is_empty() && n.sup_busy.is_none() {
                 v.push(format!("sup:{}", n.name));
             }
+        }
+        // steps of a loop / supervisor parked before the cluster-state lock go on at any time
+        let lock_parked = self.lock_parked();
+        for t in lock_parked.iter() {
+            v.push(format!("resume:{}", t));
         }
         for l in self.links.iter() {
             let to_alive = self.nodes.iter().any(|n| n.name == l.to && n.alive);
@@ -390,12 +424,24 @@ impl Sim {
                 v.push(format!("reply:{}", l.id));
             }
         }
-        if allow_client {
+        if allow_client && lock_parked.is_empty() {
             if let Some(i) = next_client {
                 v.push(format!("client:{}", i));
             }
+        } else if allow_client {
+            // (a node is not killed / restarted in the middle of a parked step: its futures are in use)
+            if let Some(i) = next_client {
+                if !self.disruptive.contains(&i) {
+                    v.push(format!("client:{}", i));
+                }
+            }
         }
         v
+    }
+
+    fn lock_parked(&self) -> Vec<usize> {
+        let st = BATON.m.lock().unwrap();
+        st.parked.iter().filter(|(t, site)| site.starts_with("cluster_state.") && self.tasks.contains_key(t)).map(|(t, _)| *t).collect()
     }
 
     /// Maps a model step ("repl:n1", "deliver:n1>n2", "reply:n1>n2") to an enabled simulator step.
@@ -433,6 +479,8 @@ impl Sim {
             Some(TaskKind::Deliver(lid)) => format!("L:{}>{}", self.links[*lid].from, self.links[*lid].to),
             Some(TaskKind::Reply(lid)) => format!("R:{}>{}", self.links[*lid].from, self.links[*lid].to),
             Some(TaskKind::ClientCmd(i)) => format!("client:{}", i),
+            Some(TaskKind::Sup(n)) => format!("sup:{}", n),
+            Some(TaskKind::Repl(n)) => format!("repl:{}", n),
             Some(TaskKind::Disconnect(node, peer)) => {
                 if let Some(x) = peer.strip_prefix("join-from-") {
                     format!("join:{}>{}", x, node)
@@ -456,6 +504,10 @@ impl Sim {
             },
             "tick" => match arg.parse::<usize>() {
                 Ok(t) => format!("tick:{}", self.origin(t)),
+                Err(_) => s.to_string(),
+            },
+            "resume" => match arg.parse::<usize>() {
+                Ok(t) => format!("resume:{}", self.origin(t)),
                 Err(_) => s.to_string(),
             },
             _ => s.to_string(),
@@ -542,7 +594,52 @@ impl Sim {
 
     fn suspended(&self) -> Vec<usize> {
         let st = BATON.m.lock().unwrap();
-        st.parked.keys().cloned().collect()
+        st.parked.iter().filter(|(_, site)| !site.starts_with("cluster_state.")).map(|(t, _)| *t).collect()
+    }
+
+    /// Inputs of the catch-up builder as they are right now (raw operation log, identifier maps, databases) and
+    /// the number of lines on the connection to the target.
+    fn catchup_ctx(&mut self, i: usize, m: &str) -> Option<(String, u64, J, usize, Option<bool>)> {
+        let rest = m.strip_prefix("replicate-since-to ")?;
+        let mut p = rest.splitn(2, ' ');
+        let target = p.next().unwrap_or("").to_string();
+        let since: u64 = p.next().unwrap_or("0").trim().parse().unwrap_or(0);
+        self.collect();
+        let before = self.links.iter().rev().find(|l| l.from == self.nodes[i].name && l.to == target)
+            .map(|l| l.handshake.len() + l.req.len()).unwrap_or(0);
+        let dir = self.nodes[i].node.dir.clone();
+        let oplog: Vec<J> = crate::ids::read_records(&dir).iter()
+            .map(|(t, k, d, o)| json!({"t": t, "k": k, "d": d, "op": o})).collect();
+        let dbs = &self.nodes[i].node.dbs;
+        let mut idk: Vec<(u64, String)> = dbs.id_keys_map.read().map(|m| m.iter().map(|(a, b)| (*a, b.clone())).collect()).unwrap_or_default();
+        let mut idd: Vec<(u64, String)> = dbs.id_name_db_map.read().map(|m| m.iter().map(|(a, b)| (*a, b.clone())).collect()).unwrap_or_default();
+        idk.sort();
+        idd.sort();
+        let inputs = json!({"oplog": oplog, "idk": idk.iter().map(|(a, b)| json!([a, b])).collect::<Vec<J>>(),
+                            "idd": idd.iter().map(|(a, b)| json!([a, b])).collect::<Vec<J>>(),
+                            "store": self.nodes[i].node.dump()});
+        // (read before the call: a panic inside it poisons the lock)
+        let member = self.nodes[i].node.dbs.cluster_state.lock().ok()
+            .and_then(|cs| cs.members.lock().ok().map(|m| m.get(&target).map(|x| x.sender.is_some())))
+            .flatten();
+        Some((target, since, inputs, before, member))
+    }
+
+    /// What a finished supervisor step is recorded as.
+    fn sup_done(&mut self, name: &str, ctx: SupCtx, panicked: bool) -> Result<(), String> {
+        if panicked {
+            self.sup_dead.insert(name.to_string(), true);
+        }
+        if let Some((target, since, inputs, before, member)) = ctx.catchup {
+            self.settle_links()?;
+            let lines: Vec<String> = self.links.iter().rev().find(|l| l.from == name && l.to == target)
+                .map(|l| l.handshake.iter().chain(l.req.iter()).skip(before).cloned().collect()).unwrap_or_default();
+            self.emit(json!({"ev":"catchup","node":name,"target":target,"since":since,"inputs":inputs,
+                             "lines":lines,"panic":panicked,
+                             "member": match member { Some(true) => "sender", Some(false) => "nosender", None => "none" }}));
+        }
+        self.emit(json!({"ev":"sup","node":name,"msg":ctx.msg,"panic":panicked}));
+        self.settle_links()
     }
 
     fn finish_task(&mut self, tid: usize, r: J) {
@@ -573,6 +670,25 @@ impl Sim {
             Some(TaskKind::Disconnect(node, peer)) => {
                 self.emit(json!({"ev":"disconnected","node":node,"peer":peer,"r":r,"task":tid}));
             }
+            Some(TaskKind::Sup(name)) => {
+                if let Some(i) = self.idx(&name) {
+                    self.nodes[i].sup_busy = None;
+                }
+                if let Some(ctx) = self.sup_ctx.remove(&tid) {
+                    if let Err(e) = self.sup_done(&name, ctx, r["cls"] == "panic") {
+                        self.emit(json!({"ev":"error","msg":e}));
+                    }
+                }
+            }
+            Some(TaskKind::Repl(name)) => {
+                let mut role = "-".to_string();
+                if let Some(i) = self.idx(&name) {
+                    self.nodes[i].repl_busy = None;
+                    role = format!("{}", self.nodes[i].node.dbs.get_role());
+                }
+                let m = self.repl_ctx.remove(&tid).unwrap_or_default();
+                self.emit(json!({"ev":"repl","node":name,"msg":m,"role":role,"panic":r["cls"] == "panic","task":tid}));
+            }
             None => {}
         }
     }
@@ -598,6 +714,27 @@ impl Sim {
                     self.emit(json!({"ev":"repl","node":name,"msg":m,"panic":false,"dead":true,"role":"-"}));
                     return Ok(());
                 }
+                if self.lock_yields {
+                    // the step runs as a task: it parks before every acquisition of the cluster-state lock
+                    let name = self.nodes[i].name.clone();
+                    let dir = self.nodes[i].node.dir.clone();
+                    let tid = self.new_task(TaskKind::Repl(name.clone()));
+                    self.nodes[i].repl_busy = Some(tid);
+                    self.repl_ctx.insert(tid, m.clone());
+                    let ptr = SendPtr(&mut self.nodes[i].repl_fut as *mut _);
+                    let r = run_task(tid, dir, move || {
+                        LOCK_PARK.with(|c| c.set(true));
+                        let p = ptr;
+                        unsafe { poll_once(&mut *p.0) };
+                        json!({"cls":"ok"})
+                    })?;
+                    if let Some(r) = r {
+                        self.finish_task(tid, r);
+                    } else {
+                        self.emit(json!({"ev":"parked","task":tid,"step":format!("repl:{}", name),"msg":m}));
+                    }
+                    return Ok(());
+                }
                 let f = &mut self.nodes[i].repl_fut;
                 let r = catch_unwind(AssertUnwindSafe(|| poll_once(f)));
                 let name = self.nodes[i].name.clone();
@@ -618,47 +755,50 @@ impl Sim {
                 // the catch-up builder: its inputs are recorded before the call (raw operation log read
                 // from the files, identifier maps, databases), its output (the lines put on the joining
                 // node's connection) after it
-                let mut catchup: Option<(String, u64, J, usize, Option<bool>)> = None;
-                if let Some(rest) = m.strip_prefix("replicate-since-to ") {
-                    let mut p = rest.splitn(2, ' ');
-                    let target = p.next().unwrap_or("").to_string();
-                    let since: u64 = p.next().unwrap_or("0").trim().parse().unwrap_or(0);
-                    self.collect();
-                    let before = self.links.iter().rev().find(|l| l.from == self.nodes[i].name && l.to == target)
-                        .map(|l| l.handshake.len() + l.req.len()).unwrap_or(0);
+                let catchup = self.catchup_ctx(i, &m);
+                let name = self.nodes[i].name.clone();
+                if self.lock_yields {
                     let dir = self.nodes[i].node.dir.clone();
-                    let oplog: Vec<J> = crate::ids::read_records(&dir).iter()
-                        .map(|(t, k, d, o)| json!({"t": t, "k": k, "d": d, "op": o})).collect();
-                    let dbs = &self.nodes[i].node.dbs;
-                    let mut idk: Vec<(u64, String)> = dbs.id_keys_map.read().map(|m| m.iter().map(|(a, b)| (*a, b.clone())).collect()).unwrap_or_default();
-                    let mut idd: Vec<(u64, String)> = dbs.id_name_db_map.read().map(|m| m.iter().map(|(a, b)| (*a, b.clone())).collect()).unwrap_or_default();
-                    idk.sort();
-                    idd.sort();
-                    let inputs = json!({"oplog": oplog, "idk": idk.iter().map(|(a, b)| json!([a, b])).collect::<Vec<J>>(),
-                                        "idd": idd.iter().map(|(a, b)| json!([a, b])).collect::<Vec<J>>(),
-                                        "store": self.nodes[i].node.dump()});
-                    // (read before the call: a panic inside it poisons the lock)
-                    let member = self.nodes[i].node.dbs.cluster_state.lock().ok()
-                        .and_then(|cs| cs.members.lock().ok().map(|m| m.get(&target).map(|x| x.sender.is_some())))
-                        .flatten();
-                    catchup = Some((target, since, inputs, before, member));
+                    let tid = self.new_task(TaskKind::Sup(name.clone()));
+                    self.nodes[i].sup_busy = Some(tid);
+                    self.sup_ctx.insert(tid, SupCtx { msg: m.clone(), catchup });
+                    let ptr = SendPtr(&mut self.nodes[i].sup_fut as *mut _);
+                    let r = run_task(tid, dir, move || {
+                        LOCK_PARK.with(|c| c.set(true));
+                        let p = ptr;
+                        unsafe { poll_once(&mut *p.0) };
+                        json!({"cls":"ok"})
+                    })?;
+                    if let Some(r) = r {
+                        self.finish_task(tid, r);
+                    } else {
+                        self.emit(json!({"ev":"parked","task":tid,"step":format!("sup:{}", name),"msg":m}));
+                    }
+                    return Ok(());
                 }
                 let f = &mut self.nodes[i].sup_fut;
                 let r = catch_unwind(AssertUnwindSafe(|| poll_once(f)));
-                let name = self.nodes[i].name.clone();
-                if r.is_err() {
-                    self.sup_dead.insert(name.clone(), true);
+                self.sup_done(&name, SupCtx { msg: m.clone(), catchup }, r.is_err())?;
+            }
+            "resume" => {
+                let tid: usize = arg.parse().map_err(|_| "task id")?;
+                let site = { BATON.m.lock().unwrap().parked.get(&tid).cloned().unwrap_or_default() };
+                // the catch-up builder runs from here on: its inputs are what the node holds now
+                let sup_of = match self.tasks.get(&tid) {
+                    Some(TaskKind::Sup(name)) => self.idx(name),
+                    _ => None,
+                };
+                if let Some(i) = sup_of {
+                    let m = self.sup_ctx.get(&tid).map(|c| c.msg.clone()).unwrap_or_default();
+                    let fresh = self.catchup_ctx(i, &m);
+                    if let Some(c) = self.sup_ctx.get_mut(&tid) {
+                        c.catchup = fresh;
+                    }
                 }
-                if let Some((target, since, inputs, before, member)) = catchup {
-                    self.settle_links()?;
-                    let lines: Vec<String> = self.links.iter().rev().find(|l| l.from == name && l.to == target)
-                        .map(|l| l.handshake.iter().chain(l.req.iter()).skip(before).cloned().collect()).unwrap_or_default();
-                    self.emit(json!({"ev":"catchup","node":name,"target":target,"since":since,"inputs":inputs,
-                                     "lines":lines,"panic":r.is_err(),
-                                     "member": match member { Some(true) => "sender", Some(false) => "nosender", None => "none" }}));
+                self.emit(json!({"ev":"resume","task":tid,"site":site}));
+                if let Some(r) = resume_task(tid)? {
+                    self.finish_task(tid, r);
                 }
-                self.emit(json!({"ev":"sup","node":name,"msg":m,"panic":r.is_err()}));
-                self.settle_links()?;
             }
             "deliver" => {
                 let lid: usize = arg.parse().map_err(|_| "link id")?;
@@ -754,6 +894,7 @@ impl Sim {
                         TaskKind::Reply(lid) => self.links[*lid].from == k,
                         TaskKind::ClientCmd(j) => case["ops"][*j]["node"].as_str() == Some(k),
                         TaskKind::Disconnect(node, _) => node == k,
+                        TaskKind::Sup(node) | TaskKind::Repl(node) => node == k,
                     }).map(|(t, _)| *t).collect();
                     for t in dead.iter() {
                         self.tasks.remove(t);
@@ -986,7 +1127,12 @@ pub fn run_case(case: &J, workdir: &str, out: &mut dyn Write, n: usize) -> Resul
                         sent: 0, user: "admin".to_string(), pwd: "adminpwd".to_string(),
                         schedule: vec![], sched_pos: 0, drift: 0,
                         trace_state: case["trace_state"].as_bool() == Some(true),
-                        trace_data: case["trace_data"].as_bool() == Some(true), sup_dead: BTreeMap::new() };
+                        trace_data: case["trace_data"].as_bool() == Some(true), sup_dead: BTreeMap::new(),
+                        lock_yields: case["lock_yields"].as_bool() == Some(true),
+                        disruptive: case["ops"].as_array().map(|a| a.iter().enumerate()
+                            .filter(|(_, o)| o.get("kill").is_some() || o.get("restart").is_some()).map(|(i, _)| i).collect()).unwrap_or_default(),
+                        sup_ctx: BTreeMap::new(),
+                        repl_ctx: BTreeMap::new() };
     let empty = vec![];
     let names: Vec<String> = case["nodes"].as_array().unwrap_or(&empty).iter().map(|x| x.as_str().unwrap().to_string()).collect();
     let base = format!("{}/cl-{}-{}", workdir, std::process::id(), n);
